@@ -153,7 +153,7 @@ PROFILES = {
             "tasks": {"detection": 5, "tracking": 3, "fp_validation": 2}},
     "c01": {"dim2d_p": 0.2, "merge_p": 0.45, "dup_labels_p": 0.5, "radii_list_p": 0.55, "force": ["ghost", "dup_detection"], "contested_p": 0.7, "tasks": {"detection": 5, "tracking": 2, "fp_validation": 3},
             "fp_gt_p": 0.2},
-    "c04": {"dim2d_p": 0.2, "force": ["ghost", "label_flip", "conf_near_tie"], "multi_thr_p": 0.8, "tasks": {"detection": 3, "tracking": 2}},
+    "c04": {"dim2d_p": 0.2, "obj_tilt_p": 0.12, "force": ["ghost", "label_flip", "conf_near_tie"], "multi_thr_p": 0.8, "tasks": {"detection": 3, "tracking": 2}},
     "c08": {"dim2d_p": 0.2, "force": ["dup", "pf_change", "pose_noise"], "multi_thr_p": 1.0, "tasks": {"detection": 3, "tracking": 2}},
     "c10": {"dim2d_p": 0.2, "force": ["ghost", "label_unknown", "crit_change"], "narrow_crit_p": 0.7, "fp_gt_p": 0.15},
     # camera worlds only (targeted runs: check.py --profile cam)
